@@ -182,6 +182,19 @@ def narrow32(x):
     return struct.unpack("f", struct.pack("f", x))[0]
 
 
+class GenerousHash:
+    """hand-written strategy returning more values than the depth asked for; Bloom filters read only the first number_hashes of them"""
+
+    def __init__(self, base, surplus=3):
+        self.base, self.surplus = base, surplus
+
+    def __call__(self, key, depth=1):
+        return list(self.base(key, depth + self.surplus))
+
+    def __repr__(self):
+        return "GenerousHash"
+
+
 class DerivedHash:
     """a strategy that agrees with `base` on part of the answer and differs on the rest (hand-written, pure):
     mode 'first_only' : same first value, different values afterwards (like a legacy chained default next to the seeded default)
